@@ -184,6 +184,17 @@ func (vc *VC) modLocs(fi *FuncInfo, items []*ModItem, args []SV, st *State) []Lo
 			tk := typeKey(u.Elem())
 			vc.eng.tkTypes[tk] = u.Elem()
 			out = append(out, Loc{Space: 'C', TK: tk, Ref: inner.L[0], Desc: m.Expr})
+		case *types.Signature, *types.Interface:
+			// gcCallbacks(f): the call counters of function value f
+			ref := inner.L[0]
+			if inner.Box != nil {
+				ref = inner.Box.L[0]
+			}
+			bt := t
+			if inner.Box != nil {
+				bt = inner.BoxT
+			}
+			out = append(out, Loc{Space: 'B', TK: typeKey(bt), Ref: ref, Desc: m.Expr})
 		default:
 			vc.fail("modifies %s[*]: unsupported type %s", m.Expr, t)
 		}
@@ -376,6 +387,12 @@ func (vc *VC) gcIntrinsic(fr *Frame, inst *ssa.Function, args []SV) ([]SV, bool)
 			}
 		}
 		return []SV{scalar(and(cs...))}, true
+	case "gcCalls":
+		return []SV{scalar(sel(vc.heapGet("CB:total:"+typeKey(ptype(0)), chIdxSort), args[0].L[0]))}, true
+	case "gcCalledWith":
+		srt := vc.eng.layoutOf(ptype(1)).L[0].Sort
+		h := vc.heapGet("CB:with:"+typeKey(ptype(0)), "(Array Int (Array "+srt+" (_ BitVec 64)))")
+		return []SV{scalar(sel(sel(h, args[0].L[0]), args[1].L[0]))}, true
 	case "gcTail":
 		vc.chET = chanElem(ptype(0))
 		return []SV{scalar(vc.chTail(args[0].L[0]))}, true
